@@ -13,9 +13,11 @@ Definition c_assemble (pol : Z) (d : nat) (s : nstore) : outcome nstore :=
 Definition c_compact (pol : Z) (d : nat) (s : nstore) : outcome nstore :=
   compact_store enc16_impl pol d s.
 Definition c_invalidate (n : bytes) (s : nstore) : nstore := invalidate n s.
+Definition c_run_ops (pol : Z) (d : nat) (ops : list op) (s : nstore) : outcome nstore :=
+  run_ops enc16_impl pol d ops s.
 Definition c_ucs2_to_utf8 (b : bytes) : outcome bytes := ucs2_to_utf8 dec16_impl true b.
 Definition c_utf8_to_ucs2 (b : bytes) : bytes := utf8_to_ucs2 enc16_impl b.
 
-Extraction "../ocaml/c10/model.ml" c_parse c_assemble c_compact c_invalidate c_ucs2_to_utf8 c_utf8_to_ucs2
+Extraction "../ocaml/c10/model.ml" c_parse c_assemble c_compact c_invalidate c_run_ops c_ucs2_to_utf8 c_utf8_to_ucs2
   v_size v_next v_attrs v_guid v_gidx v_name v_type v_off v_nextoff v_buf v_dataoff v_ext v_sub
   s_entries s_guids s_buf s_free s_goff s_len.
